@@ -1244,6 +1244,14 @@ def np_diag_indices(interp, name, args, kw, st, node):
     return V("diagidx", T("diagidx"), labels=frozenset())
 
 
+@reg("itertools.count")
+def it_count(interp, name, args, kw, st, node):
+    b = bind(["start", "step"], args, kw)
+    start = b.get("start") if b.get("start") is not None else vconst(0)
+    step = b.get("step") if b.get("step") is not None else vconst(1)
+    return V("count", T("count", start.term, step.term), items=[start, step], labels=start.labels | step.labels)
+
+
 @reg("numpy.putmask")
 def np_putmask(interp, name, args, kw, st, node):
     # np.putmask(a, mask, v) is a[mask] = v
